@@ -376,6 +376,25 @@ func advSource(shape string, n int) []byte {
 		sb.WriteString("function f() return ")
 		list(func(i int) string { return fmt.Sprintf("u%d", i) })
 		sb.WriteString(" end")
+	case "localscall": // k locals, then a call with m arguments: k + 1 + m registers (n = 1000*k + m)
+		k, m := n/1000, n%1000
+		for i := 0; i < k; i++ {
+			fmt.Fprintf(&sb, "local a%d = %d\n", i, i)
+		}
+		sb.WriteString("return tostring(")
+		for i := 0; i < m; i++ {
+			if i > 0 {
+				sb.WriteString(",")
+			}
+			sb.WriteString("a0")
+		}
+		sb.WriteString(")")
+	case "localsexpr": // k locals, then a right-nested expression d deep: about d temporaries (n = 1000*k + d)
+		k, dd := n/1000, n%1000
+		for i := 0; i < k; i++ {
+			fmt.Fprintf(&sb, "local a%d = %d\n", i, i)
+		}
+		sb.WriteString("return " + rep("a0 .. (", dd) + "a0" + rep(")", dd))
 	case "labels":
 		for i := 0; i < n; i++ {
 			fmt.Fprintf(&sb, "::l%d:: goto l%d\n", i, i)
@@ -391,6 +410,21 @@ type advCase struct {
 	n     int
 }
 
+// mustAccept: Lua 5.1 accepts these (at most 200 local variables, fewer than 250 registers), so a
+// syntax error is a failure, not just "no crash"
+func mustAccept(shape string, n int) bool {
+	k, m := n/1000, n%1000
+	switch shape {
+	case "localscall":
+		return k <= 200 && k+1+m < 250
+	case "localsexpr":
+		return k <= 200 && k+m+2 < 250
+	case "locals":
+		return n <= 200
+	}
+	return false
+}
+
 func advList(tier string) []advCase {
 	l := []advCase{
 		{"locals", 199}, {"locals", 200}, {"locals", 201}, {"locals", 300}, {"locals1", 200}, {"locals1", 250},
@@ -403,6 +437,12 @@ func advList(tier string) []advCase {
 		{"args", 250}, {"args", 300}, {"params", 200}, {"params", 300}, {"assign", 250}, {"assign", 300}, {"return", 250}, {"return", 300},
 		{"fields", 600}, {"longstring", 1000000}, {"longbracket", 100000}, {"longname", 1000000}, {"longcomment", 1000000}, {"manylines", 1000000},
 		{"upvalues", 60}, {"upvalues", 199}, {"labels", 2000},
+		// at the limits of one frame: 200 local variables, 250 registers (locals + temporaries)
+		{"localscall", 190001}, {"localscall", 198001}, {"localscall", 199001}, {"localscall", 199002}, {"localscall", 200000},
+		{"localscall", 200001}, {"localscall", 200010}, {"localscall", 200040}, {"localscall", 200048}, {"localscall", 200049},
+		{"localscall", 200060}, {"localscall", 195053}, {"localscall", 201001}, {"localsexpr", 190010}, {"localsexpr", 199003},
+		{"localsexpr", 200020}, {"localsexpr", 200046}, {"localsexpr", 200060}, {"localsexpr", 196040},
+		{"do", 100000}, {"do", 500000}, // linear since /repo 950d344 (was quadratic: 100000 took a minute)
 		{"tables", 1000000}, // C08-3: kills the process
 	}
 	if tier == "thorough" {
@@ -432,7 +472,11 @@ func runAdversarial(w *lib.Writer, tier string) {
 	}
 	res := runAll(rqs, 4)
 	for i, c := range l {
-		addGoSide(w, In{Kind: "adv", Shape: c.shape, N: c.n}, res[i], "adversarial/"+c.shape, kfAdv(c.shape, c.n))
+		r := res[i]
+		if mustAccept(c.shape, c.n) && r.Load == loadSyntax {
+			r.Load, r.Msg = loadOtherErr, "a program within Lua 5.1's limits (200 locals, 250 registers) is rejected: "+r.Msg
+		}
+		addGoSide(w, In{Kind: "adv", Shape: c.shape, N: c.n}, r, "adversarial/"+c.shape, kfAdv(c.shape, c.n))
 	}
 }
 
